@@ -378,8 +378,8 @@ func Sources(v ssa.Value) []ssa.Value {
 		case *ssa.Parameter:
 			if sites, idx := transparentCallSites(x); len(sites) > 0 {
 				for _, site := range sites {
-					if idx < len(site.Call.Args) {
-						visit(site.Call.Args[idx])
+					if idx < len(site.Args) {
+						visit(site.Args[idx])
 					}
 				}
 				return
@@ -931,8 +931,8 @@ func ValuesAt(v ssa.Value) []ssa.Value {
 		case *ssa.Parameter:
 			if sites, idx := transparentCallSites(x); len(sites) > 0 {
 				for _, site := range sites {
-					if idx < len(site.Call.Args) {
-						visit(site.Call.Args[idx])
+					if idx < len(site.Args) {
+						visit(site.Args[idx])
 					}
 				}
 				return
@@ -1289,23 +1289,24 @@ func PhiLeaves(v ssa.Value) []PhiLeaf {
 
 var (
 	tcsProg  *Program
-	tcsIndex map[*ssa.Function][]*ssa.Call
+	tcsIndex map[*ssa.Function][]*ssa.CallCommon
 )
 
 // transparentCallSites: for a parameter of a function that is only ever entered through calls the analyses look
 // through (see TransparentCallee), the calls and the parameter's position among their arguments.
-func transparentCallSites(p *ssa.Parameter) ([]*ssa.Call, int) {
+func transparentCallSites(p *ssa.Parameter) ([]*ssa.CallCommon, int) {
 	f := p.Parent()
 	if f == nil || currentProg == nil {
 		return nil, 0
 	}
 	if tcsProg != currentProg {
-		tcsProg, tcsIndex = currentProg, map[*ssa.Function][]*ssa.Call{}
+		tcsProg, tcsIndex = currentProg, map[*ssa.Function][]*ssa.CallCommon{}
 		for fn := range currentProg.AllFuncs {
 			Instrs(fn, func(in ssa.Instruction) {
-				if call, ok := in.(*ssa.Call); ok {
-					if callee := TransparentCallee(call); callee != nil {
-						tcsIndex[callee] = append(tcsIndex[callee], call)
+				// calls, and `go f(args)` / `defer f(args)` of local closures: their arguments bind the parameters too
+				if ci, ok := in.(ssa.CallInstruction); ok {
+					if callee := transparentCalleeOf(ci.Common(), fn); callee != nil {
+						tcsIndex[callee] = append(tcsIndex[callee], ci.Common())
 					}
 				}
 			})
